@@ -434,8 +434,8 @@ def run(ctx):
                  'is the program name of a parser / passed to build_config directly' if ok else
                  'no console script runs a parser under this program name: the %s section can never take effect' % entry[k].split(':')[1], ec)
     from ..signatures import call_compat
-    call_compat(ctx, 'R19.6', ['nbdime.config', 'nbdime.args'], 'option resolution aborts')
+    call_compat(ctx, 'R19.6', ['nbdime.config', 'nbdime.args'] if ctx.tier == 'quick' else ['nbdime.'], 'option resolution aborts')
     from ..names import name_binding
-    name_binding(ctx, 'R19.7', ['nbdime.config', 'nbdime.args'])
+    name_binding(ctx, 'R19.7', ['nbdime.config', 'nbdime.args'] if ctx.tier == 'quick' else ['nbdime.'])
     swallowed_value_errors(ctx, 'R19.8')
     redeclared_traits(ctx, 'R19.9')
